@@ -33,24 +33,64 @@ def fields_of(n):
     return [f for f in ORDER.get(cls, n._fields) if f in n._fields]
 
 
-def to_gen(n):
-    if n is None:
-        return ['~None', []]
+VIRTUAL = {'Call': ('args', 'keywords', '_args'), 'ClassDef': ('bases', 'keywords', '_bases')}
+
+
+def _pos(x):
+    v = x.value if isinstance(x, ast.keyword) and not hasattr(x, 'lineno') else x
+    return (v.lineno, v.col_offset)
+
+
+def arglikes(n):
+    """[(kind, idx, node)] of a Call / ClassDef in source order (kind 0 = args/bases, 1 = keywords): pfst's virtual
+    field `_args` / `_bases`, computed here from CPython positions"""
+    a, k, _ = VIRTUAL[n.__class__.__name__]
+    items = [(0, i, x) for i, x in enumerate(getattr(n, a))] + [(1, i, x) for i, x in enumerate(getattr(n, k))]
+    items.sort(key=lambda t: _pos(t[2]))
+    return items
+
+
+def gen_fields(n, virt):
+    """[(field label, is_list, [nodes])] in model order; with `virt` the args/keywords of a Call (bases/keywords of a
+    ClassDef) are ONE list field in source order, as pfst slices them"""
     cls = n.__class__.__name__
-    prims, kids = [], []
+    out = []
+    vf = VIRTUAL.get(cls) if virt else None
+    for name in fields_of(n):
+        if name in ('ctx', 'type_comment'):
+            continue
+        v = getattr(n, name, None)
+        if vf and name == vf[0]:
+            out.append(('#' + vf[2], True, [x for _, _, x in arglikes(n)]))
+        elif vf and name == vf[1]:
+            continue
+        elif isinstance(v, ast.AST):
+            out.append(('.' + name, False, [v]))
+        elif isinstance(v, list) and (cls, name) not in STR_LISTS:
+            out.append(('#' + name, True, list(v)))
+    return out
+
+
+def node_label(n):
+    cls = n.__class__.__name__
+    prims = []
     for name in fields_of(n):
         if name == 'type_comment':
             continue
         v = getattr(n, name, None)
         if name == 'ctx':
             prims.append(f'ctx={v.__class__.__name__!r}')
-        elif isinstance(v, ast.AST):
-            kids.append(['.' + name, [to_gen(v)]])
-        elif isinstance(v, list) and (cls, name) not in STR_LISTS:
-            kids.append(['#' + name, [to_gen(x) for x in v]])
+        elif isinstance(v, ast.AST) or (isinstance(v, list) and (cls, name) not in STR_LISTS):
+            continue
         else:
             prims.append(f'{name}={v!r}')
-    return [f'{cls}({", ".join(prims)})', kids]
+    return f'{cls}({", ".join(prims)})'
+
+
+def to_gen(n, virt=False):
+    if n is None:
+        return ['~None', []]
+    return [node_label(n), [[lbl, [to_gen(x, virt) for x in xs]] for lbl, _, xs in gen_fields(n, virt)]]
 
 
 def from_gen(g):
@@ -65,6 +105,11 @@ def from_gen(g):
             if len(fkids) != 1:
                 raise ValueError('single field with %d nodes' % len(fkids))
             kw[flbl[1:]] = from_gen(fkids[0])
+        elif flbl in ('#_args', '#_bases'):
+            xs = [from_gen(k) for k in fkids]
+            a, k_, _ = VIRTUAL[m.group(1)]
+            kw[a] = [x for x in xs if not isinstance(x, ast.keyword)]
+            kw[k_] = [x for x in xs if isinstance(x, ast.keyword)]
         else:
             kw[flbl[1:]] = [from_gen(k) for k in fkids]
     if 'ctx' in kw:
@@ -87,18 +132,23 @@ def is_stmt_label(lbl):
 
 
 def order_safe(tree, plain=False):
-    """model walk order (field blocks; plain: ast._fields order) == pfst syntax order for every node of the tree"""
+    """model walk order (field blocks, virtual fields merged; plain: ast._fields order) == pfst syntax order for every
+    node of the tree"""
     from fst.astutil import syntax_ordered_children
     for n in ast.walk(tree):
         mine = []
-        for name in (n._fields if plain else fields_of(n)):
-            if name == 'ctx':
-                continue
-            v = getattr(n, name, None)
-            if isinstance(v, ast.AST):
-                mine.append(v)
-            elif isinstance(v, list):
-                mine.extend(x for x in v if isinstance(x, ast.AST))
+        if plain:
+            for name in n._fields:
+                if name == 'ctx':
+                    continue
+                v = getattr(n, name, None)
+                if isinstance(v, ast.AST):
+                    mine.append(v)
+                elif isinstance(v, list):
+                    mine.extend(x for x in v if isinstance(x, ast.AST))
+        else:
+            for _, _, xs in gen_fields(n, True):
+                mine.extend(x for x in xs if isinstance(x, ast.AST))
         theirs = [c for c in syntax_ordered_children(n) if c is not None and not isinstance(c, ast.expr_context)]
         if len(mine) != len(theirs) or any(a is not b for a, b in zip(mine, theirs)):
             return False
@@ -146,25 +196,17 @@ def tmpl_gen(a, tags, in_list=False, parent=None):
         return ['s', tags(m.group(2)) if m.group(2) else None, in_list, OVR[m.group(1)]]
     if a is None:
         return ['n', '~None', []]
-    cls = a.__class__.__name__
-    prims, kids = [], []
     for name in fields_of(a):
-        if name == 'type_comment':
-            continue
         v = getattr(a, name, None)
-        if name == 'ctx':
-            prims.append(f'ctx={v.__class__.__name__!r}')
+        if name in ('ctx', 'type_comment'):
             continue
         if isinstance(v, str) and SLOT_RE.match(v) or isinstance(a, ast.Constant) and isinstance(v, (str, bytes)) and \
                 re.search(rb'__FS[TSO]_' if isinstance(v, bytes) else r'__FS[TSO]_', v):
             raise Unmodelled('identifier/string slot')
-        if isinstance(v, ast.AST):
-            kids.append(['n', '.' + name, [tmpl_gen(v, tags, False, a)]])
-        elif isinstance(v, list) and (cls, name) not in STR_LISTS:
-            kids.append(['n', '#' + name, [tmpl_gen(x, tags, True, a) for x in v]])
-        else:
-            prims.append(f'{name}={v!r}')
-    return ['n', f'{cls}({", ".join(prims)})', kids]
+    kids = []
+    for lbl, is_list, xs in gen_fields(a, True):
+        kids.append(['n', lbl, [tmpl_gen(x, tags, is_list, a) for x in xs]])
+    return ['n', node_label(a), kids]
 
 
 def tmpl_root(a, tags):
@@ -185,7 +227,13 @@ def intern_tmpl(tm, I):
 # match results of the real matcher -> model environments
 
 def _view_elems(v):
-    return getattr(v.base.a, v.field)[v.start:v.stop]
+    base = v.base.a
+    vf = VIRTUAL.get(base.__class__.__name__)
+    if vf and v.field == vf[2]:
+        return [x for _, _, x in arglikes(base)][v.start:v.stop]
+    if not hasattr(base, v.field):
+        raise Unmodelled('virtual view')
+    return getattr(base, v.field)[v.start:v.stop]
 
 
 def _is_stmts(elems, base, field):
@@ -195,49 +243,53 @@ def _is_stmts(elems, base, field):
 
 
 def _virtual_ok(parent):
-    """index in the real field == index in the virtual field pfst slices (Call._args, ClassDef._bases)"""
-    if isinstance(parent, ast.Call):
-        if parent.keywords and parent.args:
-            lk = min((k.value.lineno, k.value.col_offset) for k in parent.keywords)
-            return all((a.lineno, a.col_offset) < lk for a in parent.args)
-        return True
-    if isinstance(parent, (ast.Compare, ast.ClassDef, ast.Dict, ast.MatchMapping, ast.arguments)):
-        return False
-    return True
+    """parents whose virtual slice field is modelled (Call._args, ClassDef._bases by source order) or that have none"""
+    return not isinstance(parent, (ast.Compare, ast.Dict, ast.MatchMapping, ast.arguments))
 
 
 def env_of(m, tags):
-    """FSTMatch -> [[tag, cap], ...] with generic trees; raises Unmodelled for captures outside the modelled set"""
+    """FSTMatch -> [[tag, cap], ...] with generic trees; raises Unmodelled for captures outside the modelled set.
+    Quantifier elements are given by their REAL field and index (kind, pfield.idx) plus the layout of the virtual field
+    in source order (from CPython positions); the index mapping itself is the model's."""
     from fst import FST
     from fst.view import FSTView
     from fst.match import FSTMatch
     env = []
     for tag, v in m.tags.items():
         if isinstance(v, FST):
-            env.append([tags(tag), ['one', to_gen(v.a), v is m.matched]])
+            env.append([tags(tag), ['one', to_gen(v.a, True), v is m.matched]])
         elif isinstance(v, FSTView):
-            if not hasattr(v.base.a, v.field) or not _virtual_ok(v.base.a):
+            if not _virtual_ok(v.base.a):
                 raise Unmodelled('virtual view')
             el = _view_elems(v)
             if any(not isinstance(x, ast.AST) for x in el):
                 raise Unmodelled('view of non-nodes')
-            env.append([tags(tag), ['view', [to_gen(x) for x in el], _is_stmts(el, v.base.a, v.field)]])
+            env.append([tags(tag), ['view', [to_gen(x, True) for x in el], _is_stmts(el, v.base.a, v.field)]])
         elif isinstance(v, list):
-            items, field, stmts, parent = [], [], False, None
+            items, field, order, stmts, parent = [], [], [], False, None
 
             def leaf(x):
-                nonlocal field, stmts, parent
+                nonlocal field, order, stmts, parent
                 if not isinstance(x, FST):
                     raise Unmodelled('quantifier element ' + x.__class__.__name__)
                 pf = x.pfield
                 if pf.idx is None or not _virtual_ok(x.parent.a):
                     raise Unmodelled('quantifier over virtual field')
+                pa = x.parent.a
+                vf = VIRTUAL.get(pa.__class__.__name__)
+                virt = vf is not None and pf.name in vf[:2]
                 if parent is None:
-                    parent = x.parent.a
-                    fl = getattr(parent, pf.name)
-                    field = [to_gen(e) for e in fl]
+                    parent = pa
+                    if virt:
+                        al = arglikes(pa)
+                        field = [to_gen(e, True) for _, _, e in al]
+                        order = [[k, i] for k, i, _ in al]
+                    else:
+                        fl = getattr(pa, pf.name)
+                        field = [to_gen(e, True) for e in fl]
+                        order = [[0, i] for i in range(len(fl))]
                     stmts = isinstance(x.a, ast.stmt)
-                return [pf.idx, pf.idx + 1]
+                return [1 if virt and pf.name == vf[1] else 0, pf.idx]
 
             for q in v:
                 if not isinstance(q, FSTMatch):
@@ -245,9 +297,9 @@ def env_of(m, tags):
                 if isinstance(q.matched, list):
                     items.append(['m', [leaf(x) for x in q.matched]])
                 else:
-                    s, e = leaf(q.matched)
-                    items.append(['o', s, e])
-            env.append([tags(tag), ['q', field, items, stmts]])
+                    k, i = leaf(q.matched)
+                    items.append(['o', k, i])
+            env.append([tags(tag), ['qv', field, order, items, stmts]])
         elif v is None:
             continue
         else:
@@ -262,6 +314,8 @@ def intern_env(env, I):
             out.append([tag, ['one', I.tree(cap[1]), cap[2]]])
         elif cap[0] == 'view':
             out.append([tag, ['view', [I.tree(t) for t in cap[1]], cap[2]]])
+        elif cap[0] == 'qv':
+            out.append([tag, ['qv', [I.tree(t) for t in cap[1]], cap[2], cap[3], cap[4]]])
         else:
             out.append([tag, ['q', [I.tree(t) for t in cap[1]], cap[2], cap[3]]])
     return out
@@ -302,13 +356,18 @@ def _alarm(signum, frame):
 
 
 def with_timeout(seconds, fn, *args):
+    """run fn(*args) under a SIGALRM timeout; nests (an enclosing timeout keeps running)"""
+    import time
     old = signal.signal(signal.SIGALRM, _alarm)
-    signal.alarm(seconds)
+    t0 = time.time()
+    prev = signal.alarm(seconds)
     try:
         return fn(*args)
     finally:
         signal.alarm(0)
         signal.signal(signal.SIGALRM, old)
+        if prev:
+            signal.alarm(max(1, int(prev - (time.time() - t0))))
 
 
 # ---------------------------------------------------------------------------------------------------------------------
@@ -343,6 +402,16 @@ PATTERNS = [
      {'f': 'E', 'x': 'E', 'ia': 'ES', 'r': 'ES'}),
     ('multi', 'expr', 'MBinOp(left=M(l=MBinOp(left=M(ll=...), right=M(lr=...))), right=M(r=...))',
      {'l': 'E', 'll': 'E', 'lr': 'E', 'r': 'E'}),
+    # virtual fields: quantifier captures over Call._args / ClassDef._bases (kinds: A one arglike, AS arglike slice)
+    ('qslice', 'expr', 'MCall(_args=[M(first=...), MQSTAR(rest=...)])', {'first': 'A', 'rest': 'AS'}),
+    ('qslice', 'expr', 'MCall(func=M(f=MName), _args=[MQSTAR(init=...), M(last=...)])', {'f': 'E', 'init': 'AS', 'last': 'A'}),
+    ('qslice', 'expr', 'MCall(_args=[..., MQSTAR(mid=...), ...])', {'mid': 'AS'}),
+    ('qslice', 'expr', 'MCall(_args=[M(first=...), MQSTAR.NG(skip=...), MQPLUS(tail=...)])', {'first': 'A', 'skip': 'AS', 'tail': 'AS'}),
+    ('qmulti', 'expr', 'MCall(_args=[M(first=...), MQPLUS(g=[..., ...]), MQSTAR(rest=...)])', {'first': 'A', 'g': 'AS', 'rest': 'AS'}),
+    ('qslice', 'expr', 'MCall(keywords=[MQSTAR(kws=...)])', {'kws': 'AS'}),
+    ('view', 'expr', 'MCall(func=M(f=...), _args=M(al=...))', {'f': 'E', 'al': 'AS'}),
+    ('qslice', 'stmt', 'MClassDef(_bases=[M(first=...), MQSTAR(rest=...)])', {'first': 'A', 'rest': 'AS'}),
+    ('qslice', 'stmt', 'MClassDef(_bases=[MQSTAR(init=...), M(last=...)])', {'init': 'AS', 'last': 'A'}),
     ('node', 'stmt', 'MIf', {}),
     ('node', 'stmt', 'MExpr', {}),
     ('node', 'stmt', 'MAssign', {}),
@@ -405,6 +474,14 @@ TEMPLATES = [
     ('stmt-whole', 'stmt', 'if 1:\n    {W}'),
     ('missing-list', 'stmt', 'if 1:\n    {Z}\n    post()'),
     ('const', 'stmt', 'done = 1'),
+    ('call-arglike', 'expr', 'g({A}, {AS})'),
+    ('call-arglike', 'expr', 'o.m(0, {AS}, z=1)'),
+    ('call-arglike', 'expr', 'g({AS})'),
+    ('call-arglike', 'expr', 'g({A})'),
+    ('call-arglike', 'expr', 'h(g({AS}), {A})'),
+    ('call-arglike', 'stmt', 'r = g({A}, {AS})'),
+    ('class-bases', 'stmt', 'class K({A}, {AS}):\n    pass'),
+    ('class-bases', 'stmt', 'class K({AS}):\n    x = 1'),
     # slots inside string / bytes constants (judged by the reference sweep on the re-parsed result; not in the model)
     ('str-one', 'expr', 'log({E}, "{sE}")'),
     ('str-line-mixed', 'expr', 'p("{sE} ## ", {E}, "{sE2} <-- x", {E2})'),
@@ -439,7 +516,7 @@ def make_template(rng, fmt, tagkinds, cat):
         t, k = rng.choice(c)
         letter = 'T'
         if letter_ok and rng.random() < 0.25:
-            letter = 'S' if k in ('ES', 'SS') else 'O'      # overrides that agree with the default decision
+            letter = 'S' if k in ('ES', 'SS', 'AS') else 'O'      # overrides that agree with the default decision
         return slot(t, letter)
 
     out = fmt
@@ -450,7 +527,7 @@ def make_template(rng, fmt, tagkinds, cat):
                 return None
             out = out.replace(ph, slot(rng.choice(c)), 1)
     out = out.replace('{sW}', slot('')).replace('{sZ}', slot('zz'))
-    for ph, kinds in (('{E2}', ['E']), ('{E}', ['E']), ('{ES}', ['ES']), ('{SX}', ['S', 'SS']), ('{SS}', ['SS']),
+    for ph, kinds in (('{AS}', ['AS', 'ES']), ('{A}', ['A', 'E']), ('{E2}', ['E']), ('{E}', ['E']), ('{ES}', ['ES']), ('{SX}', ['S', 'SS']), ('{SS}', ['SS']),
                       ('{S}', ['S']), ('{ANY2}', ['S', 'SS', 'E']), ('{ANY}', ['S', 'SS', 'E'])):
         while ph in out:
             if cat == 'expr' and ph in ('{E}', '{E2}') and not tagkinds and ph == '{E2}':
@@ -481,10 +558,7 @@ class PGen:
         k = r.randrange(11)
         e = lambda: self.expr(d + 1)
         if k <= 2:
-            args = [e() for _ in range(r.randint(0, 3))]
-            if r.random() < 0.2:
-                args.append(f'k={e()}')
-            return f'{r.choice(["f", "g", "h", "o.m", "f(1)"])}({", ".join(args)})'
+            return f'{r.choice(["f", "g", "h", "o.m", "f(1)"])}({self.arglist(e)})'
         if k == 3:
             return f'[{", ".join(e() for _ in range(r.randint(0, 4)))}]'
         if k == 4:
@@ -502,13 +576,41 @@ class PGen:
             return f'({e()} if {e()} else {e()})'
         return r.choice(EXPR_ATOMS)
 
+    def arglist(self, e):
+        """positional, *starred and keyword arguments in every legal interleaving (`f(a, k=1, *b, d=2, *e, **c)`)"""
+        r = self.r
+        args = [e() for _ in range(r.randint(0, 3))]
+        c = r.random()
+        if c < 0.55:
+            return ', '.join(args)
+        if c < 0.7:
+            return ', '.join(args + [f'k={e()}'])
+        seen_kw = False
+        names = iter(['k', 'j', 'i', 'm'])
+        for _ in range(r.randint(1, 4)):
+            t = r.choice(['star', 'kw', 'kw', 'star', 'pos'])
+            if t == 'pos' and not seen_kw:
+                args.append(e())
+            elif t == 'star':
+                args.append('*' + r.choice(['a', 'b', 'xs', 'f(x)']))
+            else:
+                args.append(f'{next(names)}={e()}')
+                seen_kw = True
+        if r.random() < 0.3:
+            args.append('**' + r.choice(['kw', 'd']))
+            if r.random() < 0.3:
+                args.append(f'z={e()}')
+        return ', '.join(args)
+
     def block(self, d, ind, fn=False):
         return '\n'.join(self.stmt(d + 1, ind, fn) for _ in range(self.r.choice([1, 1, 2, 3])))
 
     def stmt(self, d=0, ind='', fn=False):
         r = self.r
-        k = r.randrange(9) if d < 2 else r.randrange(4)
+        k = r.randrange(10) if d < 2 else r.randrange(4)
         e = self.expr
+        if k == 9:
+            return f'{ind}class C{r.randint(0, 9)}({self.arglist(lambda: r.choice(["B", "m.A", "g(1)", "T"]))}):\n{self.block(d, ind + "    ", False)}'
         if k == 0:
             return f'{ind}{e()}'
         if k == 1:
@@ -717,4 +819,65 @@ def gen_chain_jobs(rng, n, allow_nested=True):
               'count': rng.choice([0, 0, 0, 2]), 'loop': rng.choice([1, 2, 2, 3, 3, 4, 6, True])}
         jobs.append({'src': src, 'shape': shape, 'cat': cat, 'pat': pat, 'placement': 'chain-' + kind, 'tmpl': tmpl,
                      'set': st})
+    return jobs
+
+
+# ---------------------------------------------------------------------------------------------------------------------
+# virtual fields: calls / class definitions whose positional, starred and keyword arguments interleave in every legal way,
+# quantifier captures whose first / last element is of each kind
+
+def _arglike_list(rng, atoms):
+    at = lambda: rng.choice(atoms)
+    args = [at() for _ in range(rng.randint(0, 2))]
+    seen_kw = False
+    names = iter(['k', 'j', 'i', 'm', 'n2'])
+    for _ in range(rng.randint(0, 4)):
+        t = rng.choice(['star', 'kw', 'kw', 'star', 'pos'])
+        if t == 'pos' and not seen_kw:
+            args.append(at())
+        elif t == 'star':
+            args.append('*' + rng.choice(['xs', 'ys', 'f(x)']))
+        else:
+            args.append(f'{next(names)}={at()}')
+            seen_kw = True
+    if rng.random() < 0.3:
+        args.append('**' + rng.choice(['kw', 'd']))
+        if rng.random() < 0.3:
+            args.append(f'z={at()}')
+    return ', '.join(args)
+
+
+def arglike_program(rng, cls):
+    lines = []
+    for i in range(rng.randint(2, 4)):
+        if cls:
+            lines.append(f'class C{i}({_arglike_list(rng, ["B", "m.A", "T"])}):\n    v = {i}')
+        else:
+            call = f'{rng.choice(["log", "f", "o.m"])}({_arglike_list(rng, ["a", "b", "fmt", "1", "g(x)"])})'
+            form = rng.randrange(4)
+            lines.append([call + '  # c', f'r{i} = wrap({call}, keep=1, *u)', f'if t:\n    {call}', f'v{i} = [{call}, 0]'][form])
+    return '\n'.join(lines)
+
+
+def gen_arglike_jobs(rng, n):
+    pats = [p for p in PATTERNS if '_args' in p[2] or '_bases' in p[2] or 'keywords=[' in p[2] or p[2].startswith('MCall(args=[')]
+    jobs = []
+    while len(jobs) < n:
+        shape, cat, spec, tagkinds = rng.choice(pats)
+        cls = 'ClassDef' in spec
+        src = arglike_program(rng, cls)
+        try:
+            ast.parse(src)
+        except SyntaxError:
+            continue
+        cands = [t for t in TEMPLATES if t[1] == cat and (t[0] in ('call-arglike', 'class-bases') or rng.random() < 0.1)
+                 and not t[0].startswith('str-')]
+        placement, _, fmt = rng.choice(cands)
+        tm = make_template(rng, fmt, tagkinds, cat)
+        if tm is None:
+            continue
+        st = settings(rng)
+        if rng.random() < 0.5:
+            st['loop'] = False
+        jobs.append({'src': src, 'shape': shape, 'cat': cat, 'pat': spec, 'placement': placement, 'tmpl': tm, 'set': st})
     return jobs
